@@ -39,6 +39,9 @@ type TxnCfg struct {
 	NameClash bool
 	// NameBias raises the share of named inserts.
 	NameBias bool
+	// SharedUUIDs lets an insert (rarely) take the uuid of a row of another table: uuids
+	// identify rows per table only.
+	SharedUUIDs bool
 }
 
 // TxnGen holds generator state across a history.
@@ -306,6 +309,28 @@ func (g *TxnGen) GenInsert(t *rapid.T, tb Table, pool *Pool, name string) Op {
 	}
 	if !g.Cfg.OmitUUID || rapid.IntRange(0, 9).Draw(t, "explicituuid") > 0 {
 		op.UUID = g.fresh()
+		if g.Cfg.SharedUUIDs && pool != nil && rapid.IntRange(0, 5).Draw(t, "shareduuid") == 0 {
+			own := map[string]bool{}
+			for _, u := range pool.RowUUIDs[tb.Name] {
+				own[u] = true
+			}
+			var cands []string
+			for _, other := range g.S.Tables {
+				if other.Name == tb.Name {
+					continue
+				}
+				for _, u := range pool.RowUUIDs[other.Name] {
+					if !own[u] && IsUUID(u) {
+						cands = append(cands, u)
+					}
+				}
+			}
+			sort.Strings(cands)
+			if len(cands) > 0 {
+				op.UUID = rapid.SampledFrom(cands).Draw(t, "shareduuidof")
+				Label("generator", "insert:uuid-of-a-row-of-another-table")
+			}
+		}
 	}
 	op.Bare = rapid.Bool().Draw(t, "barerow")
 	return op
@@ -403,6 +428,11 @@ func (g *TxnGen) genTxn(t *rapid.T, st State) []Op {
 	}
 	if g.Cfg.RefBias && rapid.IntRange(0, 2).Draw(t, "composite") == 0 {
 		if ops := g.genAttach(t, st); ops != nil {
+			return ops
+		}
+	}
+	if g.Cfg.IndexBias && g.Cfg.RefBias && rapid.IntRange(0, 3).Draw(t, "replacechild") == 0 {
+		if ops := g.genReplaceChild(t, st); ops != nil {
 			return ops
 		}
 	}
@@ -763,6 +793,119 @@ func (g *TxnGen) genAttach(t *rapid.T, st State) []Op {
 	if rapid.Bool().Draw(t, "shuffle") && ref.S == child {
 		// order of operations inside a transaction does not matter for references by uuid
 		ops = rapid.Permutation(ops).Draw(t, "oporder")
+	}
+	return ops
+}
+
+// genReplaceChild builds the transaction "a referenced row X of an indexed table is
+// replaced by a new row Y holding X's index values": X is first touched (read, or written
+// without change), Y is inserted, and the row referring to X is pointed at Y instead - so
+// X, if nothing else refers to it and its table is not a root table, is garbage collected
+// in the same transaction in which its index values are taken over.
+func (g *TxnGen) genReplaceChild(t *rapid.T, st State) []Op {
+	type site struct {
+		holder Table
+		col    Col
+		value  bool
+		target Table
+	}
+	var sites []site
+	for _, tb := range g.S.Tables {
+		for _, c := range tb.Cols {
+			if c.Immutable {
+				continue
+			}
+			for _, cand := range []struct {
+				b     *Base
+				value bool
+			}{{&c.Key, false}, {c.Value, true}} {
+				if cand.b == nil || cand.b.T != TUUID || cand.b.Ref == nil {
+					continue
+				}
+				target := g.S.Table(cand.b.Ref.Table)
+				if target != nil && len(target.Indexes) > 0 {
+					sites = append(sites, site{tb, c, cand.value, *target})
+				}
+			}
+		}
+	}
+	if len(sites) == 0 {
+		return nil
+	}
+	s := sites[rapid.IntRange(0, len(sites)-1).Draw(t, "rcsite")]
+	// a holder row that refers to an existing row X of the target table
+	type pair struct{ h, x string }
+	var pairs []pair
+	for _, h := range SortedUUIDs(st[s.holder.Name]) {
+		v := st[s.holder.Name][h][s.col.Name]
+		atoms := v.K
+		if s.value {
+			atoms = v.V
+		}
+		for _, a := range atoms {
+			if _, ok := st[s.target.Name][a.S]; ok {
+				pairs = append(pairs, pair{h, a.S})
+			}
+		}
+	}
+	if len(pairs) == 0 {
+		return nil
+	}
+	p := pairs[rapid.IntRange(0, len(pairs)-1).Draw(t, "rcpair")]
+	x := st[s.target.Name][p.x]
+	pool := g.pool(st, nil, nil)
+	byUUID := func(u string) []Cond { return []Cond{{Col: "_uuid", Fn: "==", Val: Scalar(UUID(u))}} }
+	var ops []Op
+	// touch X
+	switch rapid.IntRange(0, 4).Draw(t, "rctouch") {
+	case 0:
+		ops = append(ops, Op{Op: "select", Table: s.target.Name, Where: byUUID(p.x)})
+	case 1:
+		var conds []Cond
+		for _, cn := range s.target.Indexes[0] {
+			conds = append(conds, Cond{Col: cn, Fn: "==", Val: x[cn].Clone()})
+		}
+		ops = append(ops, Op{Op: "select", Table: s.target.Name, Where: conds})
+	case 2:
+		if cols := mutableCols(s.target); len(cols) > 0 {
+			c := cols[rapid.IntRange(0, len(cols)-1).Draw(t, "rccol")]
+			ops = append(ops, Op{Op: "update", Table: s.target.Name, Where: byUUID(p.x), Row: Row{c.Name: x[c.Name].Clone()}})
+		}
+	}
+	// Y takes over the values of one index of X
+	ins := g.GenInsert(t, s.target, pool, "")
+	if ins.UUID == "" {
+		ins.UUID = g.fresh()
+	}
+	idx := s.target.Indexes[rapid.IntRange(0, len(s.target.Indexes)-1).Draw(t, "rcidx")]
+	for _, cn := range idx {
+		ins.Row[cn] = x[cn].Clone()
+	}
+	ops = append(ops, ins)
+	// the holder refers to Y instead of X
+	cur := st[s.holder.Name][p.h][s.col.Name].Clone()
+	var nv Val
+	switch s.col.Shape() {
+	case ShScalar, ShOpt:
+		nv = Scalar(UUID(ins.UUID))
+	case ShSet:
+		nv = cur.Without(UUID(p.x)).With(UUID(ins.UUID))
+	default:
+		nv = EmptyMap()
+		for i := range cur.K {
+			k, v := cur.K[i], cur.V[i]
+			if s.value && v.S == p.x {
+				v = UUID(ins.UUID)
+			}
+			if !s.value && k.S == p.x {
+				k = UUID(ins.UUID)
+			}
+			nv = nv.WithPair(k, v)
+		}
+	}
+	ops = append(ops, Op{Op: "update", Table: s.holder.Name, Where: byUUID(p.h), Row: Row{s.col.Name: nv}})
+	if rapid.IntRange(0, 3).Draw(t, "rcshuffle") == 0 {
+		ops = rapid.Permutation(ops).Draw(t, "rcorder")
 	}
 	return ops
 }
